@@ -162,17 +162,24 @@ pub fn number(num: &Number, p: &Interpreter) -> MResult<Value> {
 }
 
 #[cfg(feature = "complex")]
-fn complex(num: &C64Node, p: &Interpreter) -> MResult<Value> {
-  let im: f64 = match real(&num.imaginary.number, p)?.as_f64() {
+// A part of a complex literal as f64.  A rational part (`1/2+3i`) has no as_f64 conversion: it denotes its quotient
+// (it used to be replaced by 0 silently).
+fn complex_part(v: Value) -> f64 {
+  match v.as_f64() {
     Ok(val) => *val.borrow(),
-    Err(_) => 0.0,
-  };
+    Err(_) => match &v {
+      #[cfg(feature = "rational")]
+      Value::R64(r) => r.borrow().to_f64().unwrap_or(f64::NAN),
+      _ => 0.0,
+    },
+  }
+}
+
+fn complex(num: &C64Node, p: &Interpreter) -> MResult<Value> {
+  let im: f64 = complex_part(real(&num.imaginary.number, p)?);
   let result = match &num.real {
     Some(real_val) => {
-      let re: f64 = match real(&real_val, p)?.as_f64() {
-        Ok(val) => *val.borrow(),
-        Err(_) => 0.0,
-      };      
+      let re: f64 = complex_part(real(&real_val, p)?);
       Value::C64(Ref::new(C64::new(re, im)))
     },
     None => Value::C64(Ref::new(C64::new(0.0, im))),
